@@ -172,7 +172,8 @@ Definition c09_class_f (scale offset mn mx : f64) : bool :=
 
 (** clamp clause: [res] = claimed ToPhysical(float64 raw) *)
 Definition clamp_ok_f (scale offset mn mx : f64) (value res : f64) : bool :=
-  if declared_f mn mx then Bleb mn res && Bleb res mx
+  if declared_f mn mx
+  then Bleb mn res && Bleb res mx && Beqb res (clamp_f mn mx (fadd (fmul value scale) offset))
   else Beqb res (fadd (fmul value scale) offset)
        || (is_nan res && is_nan (fadd (fmul value scale) offset)).
 
